@@ -131,7 +131,8 @@ add(Contract("yarl._url:URL.build",
              [("cls", CONST(None)), ("scheme", STR), ("authority", STR), ("user", OPT(STR)), ("password", OPT(STR)),
               ("host", STR), ("port", UNION(OPT(INT), BOOL, CONST("80"))), ("path", STR), ("query", CONST(None)),
               ("query_string", STR), ("fragment", STR), ("encoded", BOOL)],
-             spec=spec_url.build, raises=(TypeError, ValueError), props=("WIP2",)))
+             spec=spec_url.build, raises=(TypeError, ValueError), shards=16, tier="thorough",
+             memo_skip=("raw_host", "raw_user", "raw_password", "explicit_port"), props=("WIP2",)))
 
 # ---------------------------------------------------------------- the quoters (C01, C02, C04, C05)
 import ast as _ast
